@@ -169,7 +169,12 @@ def finish(ctx, adapter_name=None):
         if len(new) > 25:
             print("  (+%d more distinct violation signatures)" % (len(new) - 25))
     if not ctx.replaying:
-        write_evidence(ctx, known, new)
+        try:
+            write_evidence(ctx, known, new)
+        except MachineryError as e:
+            if rc != 1:
+                raise
+            print("MACHINERY-NOTE property=%s: evidence not written (%s)" % (ctx.prop, e))
     return rc
 
 
